@@ -638,6 +638,41 @@ def TestFn.eval : TestFn → Cell → Bool
 def Series.replaceWhere (t : TestFn) (new : Cell) (s : Series) : Series :=
   (mapCells (fun x => if t.eval x then new else x) s).trim
 
+/-! ### extrapolate (`series/_extrapolate.py`): the autoregressive recursion over rationals -/
+
+/-- one step `x_t = ρ_1 x_{t-1} + … + ρ_p x_{t-p} + c`; `hist` holds `x_{t-1}, x_{t-2}, …` (most recent first).
+A missing value among the `p` lags makes the result missing (NaN runs through `lfiltic`/`lfilter`). -/
+def arStep (coeffs : List Rat) (c : Rat) (hist : List Cell) : Cell :=
+  if hist.length < coeffs.length then none
+  else (strictVals (hist.take coeffs.length)).map (fun xs => sumQ (List.zipWith (· * ·) coeffs xs) + c)
+
+/-- `n` steps of the recursion, each new value becoming the most recent lag of the next -/
+def arRun (coeffs : List Rat) (c : Rat) : Nat → List Cell → List Cell
+  | 0, _ => []
+  | n + 1, hist => arStep coeffs c hist :: arRun coeffs c n (arStep coeffs c hist :: hist)
+
+/-- `extrapolate(ar_coeffs, span, intercept=c)` on serials: nothing on a start-less series or an empty span; the initial
+condition is read from `(span[0] - p, span[0] - 1)` of every own variant (calendar order, flipped to most-recent-first),
+`len(span)` steps are computed and written to the dates of the span in order with `set_data`. (`log=True` is not modelled.) -/
+def Series.extrapolate (s : Series) (coeffs : List Rat) (c : Rat) (serials : List Int) : R Series :=
+  match s.start, serials with
+  | none, _ => pure s
+  | some _, [] => pure s
+  | some _, a :: _ =>
+    if s.nv = 0 then throw .badInput               -- `np.hstack(())` raises
+    else
+      let p := coeffs.length
+      let init := s.sliceFromUntil (a - (p : Int)) (a - 1)
+      let cols := (transpose s.nv init).map (fun col => arRun coeffs c serials.length col.reverse)
+      s.setData serials (.array cols) (allVids s)
+
+def Series.extrapolateP (s : Series) (coeffs : List Rat) (c : Rat) (ps : List Period) : R Series :=
+  match s.start with
+  | none => pure s
+  | some _ => do
+    let serials ← serialsOf s.freq ps
+    s.extrapolate coeffs c serials
+
 /-! ### op sequences over a pool of series (the protocol of the differential check and of `reachable_inv`) -/
 
 inductive BinFn where | add | sub | mul
@@ -702,6 +737,7 @@ inductive Op where
   | mov (k i : Nat) (f : MovFn) (w : Option Int)                         -- pool[k] = irispie.mov_sum(pool[i], w)
   | fill (k i : Nat) (m : FillMethod) (dates : DatesArg)                 -- pool[k] = irispie.fill_missing(pool[i], m, arg, span=dates)
   | replaceWhere (i : Nat) (t : TestFn) (new : Cell)                     -- pool[i].replace_where(test, new)
+  | extrap (k i : Nat) (coeffs : List Rat) (c : Rat) (dates : DatesArg)  -- pool[k] = irispie.extrapolate(pool[i], coeffs, dates, intercept=c)
   deriving Repr
 
 inductive Output where
@@ -784,6 +820,12 @@ def step (p : Pool) : Op → R (Pool × Output)
     let ps ← s.resolveDates dates
     pure (← p.put k (← s.fillMissingP m ps), .none)
   | .replaceWhere i t new => do pure (← p.put i ((← p.get i).replaceWhere t new), .none)
+  | .extrap k i coeffs c dates => do
+    let s ← p.get i
+    if s.start.isNone then pure (← p.put k s, .none)          -- returns before the span is looked at
+    else do
+      let ps ← s.resolveDates dates
+      pure (← p.put k (← s.extrapolateP coeffs c ps), .none)
 
 /-- a whole sequence; the first error ends it -/
 def run (p : Pool) : List Op → R Pool
